@@ -711,7 +711,7 @@ func (f *formatter) StmtNamespace(n *ast.StmtNamespace) {
 		n.Name.Accept(f)
 	}
 
-	if len(n.Stmts) > 0 {
+	if n.Stmts != nil {
 		f.addFreeFloating(token.T_WHITESPACE, []byte(" "))
 		n.OpenCurlyBracketTkn = f.newToken('{', []byte("{"))
 		if len(n.Stmts) > 0 {
